@@ -6,7 +6,14 @@ from harness import factory
 
 
 def digests(cfgs, churn=0):
-    junk = [object() for _ in range(churn)]          # perturb the allocator / id() values
+    # perturb the allocator / id() values in EVERY small-object size class (instances, their dicts, lists, tuples, events):
+    # identity hashes -- and with them the iteration order of sets / dicts keyed by objects -- follow the low address bits
+    class _J:
+        def __init__(self, k):
+            self.a, self.b = k, [k]
+    junk = [object() for _ in range(churn)]
+    for k in range(churn % 97):
+        junk += [_J(k), {"k": k}, [k] * (k % 9), (k,) * (k % 7 + 1), bytearray(8 * (k % 40)), set([k])]
     out = []
     for c in cfgs:
         lines = factory.run_impl(c)
